@@ -23,6 +23,10 @@ func InstallFile(targetDir string, fileName string, content []byte) (retErr erro
 		return fmt.Errorf("cannot create directory: %s: %w", targetDir, err)
 	}
 
+	if err := verifPoint("after-mkdir"); err != nil {
+		return err
+	}
+
 	tmp, err := os.CreateTemp(targetDir, ".tmp-*")
 	if err != nil {
 		return fmt.Errorf("cannot create temp file: %w", err)
@@ -39,12 +43,25 @@ func InstallFile(targetDir string, fileName string, content []byte) (retErr erro
 		}
 	}()
 
+	if err := verifPoint("after-create"); err != nil {
+		return err
+	}
+	verifPartial(tmp, content)
+
 	if _, err := tmp.Write(content); err != nil {
 		return fmt.Errorf("cannot write file: %w", err)
 	}
 
+	if err := verifPoint("after-write"); err != nil {
+		return err
+	}
+
 	if err := tmp.Sync(); err != nil {
 		return fmt.Errorf("cannot sync file: %w", err)
+	}
+
+	if err := verifPoint("after-sync"); err != nil {
+		return err
 	}
 
 	if err := tmp.Close(); err != nil {
@@ -52,14 +69,26 @@ func InstallFile(targetDir string, fileName string, content []byte) (retErr erro
 	}
 	closed = true
 
+	if err := verifPoint("after-close"); err != nil {
+		return err
+	}
+
 	if err := os.Chmod(tmpName, FileMode); err != nil {
 		return fmt.Errorf("cannot set file permissions: %w", err)
+	}
+
+	if err := verifPoint("after-chmod"); err != nil {
+		return err
 	}
 
 	finalPath := filepath.Join(targetDir, fileName)
 
 	if err := os.Rename(tmpName, finalPath); err != nil {
 		return fmt.Errorf("cannot install file %s: %w", finalPath, err)
+	}
+
+	if err := verifPoint("after-rename"); err != nil {
+		return err
 	}
 
 	return nil
@@ -114,6 +143,10 @@ func Install(agent Agent, customPath string, userFlag bool) (string, error) {
 
 		if installErr := InstallFile(targetDir, fileName, content); installErr != nil {
 			return installErr
+		}
+
+		if err := verifPoint("file-done"); err != nil {
+			return err
 		}
 
 		return nil
